@@ -221,6 +221,9 @@ def scenario_runner(args):
         R.do({'op': 'vdot', 'a': a, 'b': b, 'conj': [0, conj_b]})
         if not opposite:
             R.do({'op': 'lincomb', 'a': a, 'b': b, 'amp': [[1, 0], [rng.choice((1, -1, 2)), 0]]})
+            # n-ary sums: every operand has to be embedded into the union of the fused spaces, whatever the order in which matching and differing operands come
+            x, y, z = rng.choice(((a, b, a), (a, b, a), (b, a, b), (a, a, b), (b, a, a)))
+            R.do({'op': 'add3', 'a': x, 'b': y, 'c': z, 'amp': [[1, 0], [rng.choice((1, -1, 2)), 0], [rng.choice((1, 3)), 0]]})
             R.do({'op': 'vdot', 'a': a, 'b': b, 'conj': [1, 0]})
         else:
             bc = R.do({'op': 'conj', 'a': b})
